@@ -20,7 +20,52 @@ pub type TablesFn = fn(w: &mut dyn std::io::Write);
 
 include!(concat!(env!("OUT_DIR"), "/registry.rs"));
 
+/// Runs one request on a worker thread and waits for its answer with a deadline: a request that does not come back (an
+/// evaluation that loops without progress, a deadlocked session) is reported as the outcome `hang:<limit>`; its thread is
+/// abandoned and a fresh worker serves the following requests.  After a few hangs the remaining requests of the run are
+/// answered `skipped:hang-budget` (every abandoned thread may still be spinning on a core).
+struct Worker { tx: std::sync::mpsc::Sender<String>, rx: std::sync::mpsc::Receiver<String> }
+static HANGS: std::sync::atomic::AtomicUsize = std::sync::atomic::AtomicUsize::new(0);
+thread_local! { static WORKER: RefCell<Option<Worker>> = RefCell::new(None); }
+
+fn spawn_worker() -> Worker {
+    let (tx, rxi) = std::sync::mpsc::channel::<String>();
+    let (txo, rx) = std::sync::mpsc::channel::<String>();
+    std::thread::Builder::new().stack_size(256 << 20).spawn(move || {
+        for line in rxi { let r = exec_line_here(&line); if txo.send(r).is_err() { break; } }
+    }).expect("cannot spawn worker");
+    Worker { tx, rx }
+}
+
+fn deadline_for(op: &str) -> u64 {
+    // interpreter / codec requests answer in microseconds; sessions and scheduled thread programs have their own watchdogs
+    if op.starts_with("c12.") || op.starts_with("c13.") || op.starts_with("c11.") { 180 }
+    else if op.starts_with("c01.") || op.starts_with("c07.") || op.starts_with("c16.") || op.starts_with("c17.") { 10 }
+    else { 60 }
+}
+
 fn exec_line(line: &str) -> String {
+    if std::env::var("CGH_NO_WORKER").is_ok() { return exec_line_here(line); }
+    if HANGS.load(std::sync::atomic::Ordering::SeqCst) >= 4 { return "skipped:hang-budget".into(); }
+    let limit = deadline_for(line.split(' ').next().unwrap_or(""));
+    WORKER.with(|w| {
+        let mut w = w.borrow_mut();
+        if w.is_none() { *w = Some(spawn_worker()); }
+        let wk = w.as_ref().unwrap();
+        if wk.tx.send(line.to_string()).is_err() { *w = None; return "panic:worker-gone".to_string(); }
+        match wk.rx.recv_timeout(std::time::Duration::from_secs(limit)) {
+            Ok(r) => r,
+            Err(std::sync::mpsc::RecvTimeoutError::Timeout) => {
+                HANGS.fetch_add(1, std::sync::atomic::Ordering::SeqCst);
+                *w = None;
+                format!("hang:{}s", limit)
+            }
+            Err(_) => { *w = None; "panic:worker-died".to_string() }
+        }
+    })
+}
+
+fn exec_line_here(line: &str) -> String {
     let parts: Vec<&str> = line.split(' ').collect();
     let op = parts[0];
     for (_, _, ex, _) in registry() {
